@@ -55,13 +55,18 @@ CLAIMS = {
     "C04": dict(
         technique="normal-form factorisation output = scale x code; "
                   "finite-set value analysis by region; structural match of "
-                  "the least-squares scale; power-of-two domain",
+                  "the least-squares scale; power-of-two domain; degree "
+                  "typing (homogeneity in the input)",
         text="Code sets, sign/threshold orientation, least-squares form of "
              "the auto scale (same reduction/axes in numerator and "
              "denominator) and power-of-two-ness of auto_po2 scales within "
              "configured exponent bounds, for all inputs.",
-        note="Not decided: non-negativity of the scale in 0/1 mode, the "
-             "epsilon term, huge/tiny magnitudes.",
+        note="Magnitude independence is decided as homogeneity of degree 1 "
+             "(degree typing of the forward term) for the inference arms "
+             "with alpha='auto' only. Not decided: non-negativity of the "
+             "scale in 0/1 mode, the numerical effect of the epsilon term, "
+             "the power-of-two modes (which floor the scale) and the random "
+             "training arms under huge/tiny magnitudes.",
         ref="DESIGN.md section 3 C04"),
     "C05": dict(
         technique="normal-form factorisation by the recorded scale; "
